@@ -301,8 +301,10 @@ def c05c(ctx):
             if isinstance(n, ast.BinOp) and isinstance(n.op, ast.Mult) and isinstance(n.left, ast.Constant) \
                     and isinstance(n.left.value, bytes) and len(n.left.value) == 1:
                 widths.append(try_const(n.right))
-            if is_call(n, 'write') and n.args and isinstance(n.args[0], ast.Constant) and isinstance(n.args[0].value, bytes):
-                widths.append(len(n.args[0].value))         # the entry written out as a literal
+            if is_call(n, 'write') and n.args:
+                a0 = cexpr(n.args[0])               # (closed form: the entry may be held in a local first)
+                if isinstance(a0, ast.Constant) and isinstance(a0.value, bytes):
+                    widths.append(len(a0.value))         # the entry written out as a literal
         ctx.check(widths and all(w == 5 for w in widths), 'BundleIndexV1.%s:entry-width' % mname,
                   'V1 index entries are read/written as 5 bytes', f,
                   fail='V1 index entry widths %s differ from the 5-byte slot' % widths)
@@ -361,6 +363,9 @@ def c05d(ctx):
                     """`for L in D: self._get_level(L).x(D[L])` (or `for L, ts in D.items()`) where D is only filled by
                     D.setdefault(t.coord[2], []).append(t) / D[t.coord[2]].append(t): the tiles of a group have the level of its key"""
                     loop = enclosing(call, ast.For)
+                    comp = enclosing(call, (ast.ListComp, ast.GeneratorExp))
+                    if comp is not None and (loop is None or inside(comp, loop)) and len(comp.generators) == 1 and not comp.generators[0].ifs:
+                        loop = comp.generators[0]       # [self._get_level(L).x(ts) for L, ts in D.items()]: one visit per group as well
                     if loop is None or not isinstance(e, ast.Name):
                         return False
                     it = loop.iter
